@@ -522,7 +522,7 @@ impl Prop for C17 {
     }
 
     fn fuzz_targets(&self) -> Vec<(&'static str, u64)> {
-        vec![("fuzz_sorter", 40_000), ("fuzz_cursor", 25_000)]
+        vec![("fuzz_sorter", 3_000), ("fuzz_cursor", 25_000)]
     }
 
     fn extra(&self, tier: Tier, seed: u64, ctx: &crate::runner::ExtraCtx) -> crate::runner::ExtraOut {
